@@ -19,6 +19,8 @@ INJECT = [
     ("zkchannels-crypto/src/proofs/signature.rs", "zc_signature.rs"),
     ("zkchannels-crypto/src/proofs/range.rs", "zc_range.rs"),
     ("zkabacus-crypto/src/merchant.rs", "za_merchant.rs"),
+    ("zkabacus-crypto/src/states.rs", "za_states.rs"),
+    ("zkabacus-crypto/src/proofs.rs", "za_proofs.rs"),
 ]
 
 # test -> (crate, properties it stands in for, functions)
@@ -30,17 +32,35 @@ TESTS = {
     "standin_sproof_verify": ("zkchannels-crypto", ["C11", "C10", "C02", "C13", "C12"], ["sproof.SignatureProof::verify_knowledge_of_signature", "sproof.SignatureProof::consume"]),
     "standin_range_validate": ("zkchannels-crypto", ["C13", "C19"], ["range.RangeConstraintParameters::validate"]),
     "standin_range_constraint": ("zkchannels-crypto", ["C13", "C10", "C02"], ["range.RangeConstraintBuilder::*", "range.RangeConstraint::verify_range_constraint"]),
+    "standin_range_params_challenge": ("zkchannels-crypto", ["C06", "C02", "C12"], ["range.RangeConstraintParameters::consume"]),
+    "standin_channel_id_scalar": ("zkabacus-crypto", ["C06", "C18", "C01"], ["states.ChannelId::to_scalar"]),
+    "standin_channel_id_collision_mod_q": ("zkabacus-crypto", ["C06"], ["states.ChannelId::to_scalar"]),
+    "standin_channel_id_new": ("zkabacus-crypto", ["C18"], ["states.ChannelId::new"]),
+    "standin_establish_tuple": ("zkabacus-crypto", ["C06", "C01"], ["zproofs.EstablishProof::new", "zproofs.EstablishProof::verify"]),
+    "standin_pay_tuple": ("zkabacus-crypto", ["C06", "C02"], ["zproofs.PayProof::new", "zproofs.PayProof::verify"]),
     "standin_merchant_flow": ("zkabacus-crypto", ["C04", "C05", "C03", "C01", "C02"], ["merchant.Config::*", "merchant.Unrevoked::complete_payment", "customer.*"]),
 }
+
+
+# stand-ins that run in every tier: they carry a recorded finding that no deductive obligation expresses
+ALWAYS = {"C06": ["standin_channel_id_collision_mod_q", "standin_channel_id_scalar"]}
 
 
 def tests_for(pid):
     return [t for t, (c, props, f) in TESTS.items() if pid in props]
 
 
+def select(pid, tier, undecided):
+    """quick: the ALWAYS set, plus everything for the property when the deductive lane is undecided; thorough: everything"""
+    if tier == "thorough" or undecided:
+        return tests_for(pid)
+    return [t for t in ALWAYS.get(pid, []) if t in TESTS]
+
+
 def run(pid, only=None):
     """-> list of dict(name, ok, detail, functions, replay, machinery)"""
     names = [t for t in tests_for(pid) if only is None or t in only]
+    filt = "standin_" if only is None or len(names) != 1 else names[0]
     if not names:
         return []
     d = tempfile.mkdtemp(prefix="vf_standin.", dir="/tmp")
@@ -53,7 +73,7 @@ def run(pid, only=None):
         env = dict(os.environ, CARGO_NET_OFFLINE="true", CARGO_TARGET_DIR=os.path.join(CACHE, "standin-target"))
         for crate in sorted(set(TESTS[t][0] for t in names)):
             ts = [t for t in names if TESTS[t][0] == crate]
-            cmd = ["cargo", "test", "--offline", "--release", "--features", "bincode", "-p", crate, "--lib", "standin_", "--", "--test-threads", "8"]
+            cmd = ["cargo", "test", "--offline", "--release", "--features", "bincode", "-p", crate, "--lib", filt, "--", "--test-threads", "8"]
             try:
                 p = subprocess.run(cmd, cwd=d, env=env, capture_output=True, text=True, timeout=2400)
             except subprocess.TimeoutExpired:
